@@ -593,6 +593,23 @@ func c15Lab(t *testing.T, variant stdVariant, engine string) {
 					return
 				}
 			}
+			// a pin whose response carried a larger Expires is still owed after more
+			// than one dialog timeout of silence on that dialog (the probes above were
+			// its last requests): once more, late but within Expires
+			var long []*c15Dlg
+			for _, d := range ds {
+				if d.life == 3*time.Second {
+					long = append(long, d)
+				}
+			}
+			if len(long) > 0 {
+				time.Sleep(time.Until(long[len(long)-1].pinAfter.Add(2350 * time.Millisecond)))
+				for _, d := range long {
+					if !judge(d, "within Expires, after more than one dialog timeout without a request of the dialog") {
+						return
+					}
+				}
+			}
 			V.Sample(fmt.Sprintf("round %d: 12 dialogs (Expires absent/3/2147483647/0) probed at ~0.3 s and ~1.2 s", r))
 		}
 	})
